@@ -266,6 +266,8 @@ var (
 func resetPageHashCache() {
 	pageHashMu.Lock()
 	pageHashCache = map[*byte]uint64{}
+	pageWriteCache = map[pwKey][]byte{}
+	internPages = true
 	pageHashMu.Unlock()
 }
 
@@ -705,6 +707,13 @@ func (x *concRun) addRec(r *concRec) int {
 func (concEngine) Exec(spec *Spec) *Result {
 	res := &Result{}
 	resetPageHashCache()
+	defer func() {
+		pageHashMu.Lock()
+		internPages = false
+		pageWriteCache = map[pwKey][]byte{}
+		pageHashCache = map[*byte]uint64{}
+		pageHashMu.Unlock()
+	}()
 	x := &concRun{spec: spec, res: res, d: simdisk.New(spec.Disk)}
 	cfg := simConfig(spec.Sched, 2_000_000)
 	cfg.SecondChance = 2_000_000
